@@ -34,9 +34,12 @@ SILENT_TIMEOUT_S = 0.4   # requests nobody will answer
 SCENARIO_TIMEOUT_S = 40.0
 FLOOD_SOAK_S = 0.4
 
-BEHAVIOURS = ["well", "exit_at", "ignore_term", "never_reads", "flood", "close_stdout", "close_stdin", "slow_start"]
+BEHAVIOURS = ["well", "exit_at", "ignore_term", "never_reads", "stops_reading", "flood", "close_stdout", "close_stdin",
+              "slow_start"]
 PATHS = ["normal", "exception", "cancel", "timeout"]
-MOMENTS = ["before", "inflight", "after"]
+MOMENTS = ["before", "inflight", "after"]   # plus "entry": cancellation while the context is being entered
+BACKLOG_BYTES = 16000    # size of one queued outgoing notification (`backlog` of them are queued just before the exit)
+HANG_AFTER_MS = GRACE_MS + SLACK_MS + 500   # an exit still running then is released by killing the child and reported
 APIS = ["stdio_client", "StdioTransport", "StdioClient"]
 
 CHILD = r'''
@@ -93,6 +96,9 @@ while True:
     out({"jsonrpc": "2.0", "id": m["id"], "result": {"echo": (m.get("params") or {}).get("x")}})
     step += 1                                  # even step: it has been answered
     maybe_exit()
+    if kind == "stops_reading":                # one answer, then it never touches its stdin again
+        while True:
+            time.sleep(3600)
 if kind == "ignore_term":                      # stubborn: stdin EOF does not end it either
     while True:
         time.sleep(3600)
@@ -106,6 +112,8 @@ def answers(case, j):
         return True
     if b == "exit_at":
         return case.get("k", 0) >= 2 * j
+    if b == "stops_reading":
+        return j == 1
     return False
 
 
@@ -234,6 +242,15 @@ async def _scenario(case, tmp, obs):
             rec["outcome"] = "error"
             rec["exc"] = type(ex).__name__
 
+    async def queue_backlog(w):
+        """outgoing traffic queued right before the exit begins (more than pipe + write buffer hold)"""
+        n = case.get("backlog", 0)
+        for i in range(n):
+            await w.send(JSONRPCMessage(jsonrpc="2.0", method="notifications/progress",
+                                        params={"progressToken": "backlog", "progress": i, "message": "x" * BACKLOG_BYTES}))
+        if n:
+            await anyio.sleep(0.05)
+
     async def conversation(r, w, scope):
         """runs inside the client context; returns when the exit is to begin (normal / exception)
         or never (cancel / timeout: the exit is triggered from outside)"""
@@ -261,6 +278,7 @@ async def _scenario(case, tmp, obs):
             else:
                 rec = {"x": None, "outcome": "cancelled", "held": True}
                 reqs.append(rec)
+                await queue_backlog(w)
                 arm(scope, 0.3)
                 try:
                     res = await send_message(r, w, "hold", {}, timeout=30.0)
@@ -272,6 +290,7 @@ async def _scenario(case, tmp, obs):
                     rec["outcome"] = "error"
                     rec["exc"] = type(ex).__name__
                 await anyio.sleep_forever()
+        await queue_backlog(w)
         if path in ("cancel", "timeout"):
             arm(scope, 0.05)
             await anyio.sleep_forever()
@@ -292,32 +311,72 @@ async def _scenario(case, tmp, obs):
         clock["exit"] = time.monotonic()
         cs.cancel()
 
-    try:
-        with anyio.fail_after(SCENARIO_TIMEOUT_S):
-            if path in ("normal", "exception"):
-                try:
-                    async with client() as (r, w):
-                        await conversation(r, w, None)
-                except Boom:
-                    obs["exit_exc"] = "Boom"
-            elif path == "timeout":
-                # a timeout around the whole context
-                with anyio.move_on_after(3600) as scope:
-                    async with client() as (r, w):
-                        await conversation(r, w, scope)
-            else:
-                # outer cancellation: the context lives in a task of a task group that is cancelled
-                async with anyio.create_task_group() as tg:
-                    with anyio.CancelScope() as inner:
-                        async with client() as (r, w):
-                            await conversation(r, w, (tg, inner))
-    except TimeoutError:
-        obs["hang"] = True
-    except BaseException as ex:  # noqa: BLE001
-        if not obs["entered"]:
-            obs["enter_exc"] = type(ex).__name__
+    async def entry_moment():
+        """the enclosing scope is cancelled `deadline_ms` after the `async with` statement is reached:
+        while the context is being entered (before, during, right after the spawn) or early in the body"""
+        d = case["deadline_ms"] / 1000.0
+        clock["exit"] = time.monotonic() + d
+        if path == "timeout":
+            with anyio.move_on_after(d):
+                async with client():
+                    obs["entered"] = True
+                    await anyio.sleep_forever()
         else:
-            obs["exit_exc"] = type(ex).__name__
+            async with anyio.create_task_group() as tg:
+                with anyio.CancelScope() as inner:
+                    tg.start_soon(cancel_later, inner, d)
+                    async with client():
+                        obs["entered"] = True
+                        await anyio.sleep_forever()
+
+    async def run_path():
+        try:
+            with anyio.fail_after(SCENARIO_TIMEOUT_S):
+                if moment == "entry":
+                    await entry_moment()
+                elif path in ("normal", "exception"):
+                    try:
+                        async with client() as (r, w):
+                            await conversation(r, w, None)
+                    except Boom:
+                        obs["exit_exc"] = "Boom"
+                elif path == "timeout":
+                    # a timeout around the whole context
+                    with anyio.move_on_after(3600) as scope:
+                        async with client() as (r, w):
+                            await conversation(r, w, scope)
+                else:
+                    # outer cancellation: the context lives in a scope that another task cancels
+                    async with anyio.create_task_group() as tg:
+                        with anyio.CancelScope() as inner:
+                            async with client() as (r, w):
+                                await conversation(r, w, (tg, inner))
+        except TimeoutError:
+            obs["hang"] = True
+        except BaseException as ex:  # noqa: BLE001
+            if not obs["entered"]:
+                obs["enter_exc"] = type(ex).__name__
+            else:
+                obs["exit_exc"] = type(ex).__name__
+
+    async def watchdog(scope):
+        """an exit that is still running HANG_AFTER_MS after it began is unbounded for our purposes: note it,
+        then release it by killing the child (what a user would have to do), as a last resort cancel it"""
+        while True:
+            await anyio.sleep(0.05)
+            t = clock["exit"]
+            if t is not None and (time.monotonic() - t) * 1000 > HANG_AFTER_MS:
+                obs["hang"] = True
+                kill_tagged(tmp)
+                await anyio.sleep(4.0)
+                scope.cancel()
+                return
+
+    async with anyio.create_task_group() as outer:
+        with anyio.CancelScope() as run_scope:
+            outer.start_soon(watchdog, run_scope)
+            await run_path()
+        outer.cancel_scope.cancel()
     t_end = time.monotonic()
     if clock["exit"] is not None:
         obs["duration_ms"] = max(0, int((t_end - clock["exit"]) * 1000))
